@@ -193,8 +193,41 @@ def real_history(ctx, idx):
     opened = set()
     srv = lsp.Server(root)
     steps = []
+    ver = {}
     try:
         srv.initialize()
+        if idx % 4 == 1:
+            # directed beginning: a document is edited several times, closed and opened again (its version restarts at 1)
+            name = rng.choice(list(FILES))
+            uri = "file://%s/%s" % (root, name)
+            srv.open(uri, texts[name])
+            opened.add(name)
+            ver[name] = 1
+            steps.append("open " + name)
+            for k in range(3):
+                ver[name] += 1
+                srv.change(uri, [{"range": lspws.rng_of(texts[name], 0, 0), "text": "// v%d\n" % k}], version=ver[name])
+                steps.append("edit %s: %r -> %r" % (name, "", "// v%d\n" % k))
+                texts[name] = "// v%d\n" % k + texts[name]
+            srv.close_doc(uri)
+            opened.discard(name)
+            texts[name] = FILES[name]
+            ver.pop(name, None)
+            steps.append("close " + name)
+            srv.open(uri, texts[name])
+            opened.add(name)
+            ver[name] = 1
+            steps.append("open " + name)
+            cands = [e for e in EDITS if e[0] == name and e[1] in texts[name]]
+            if cands:
+                e = rng.choice(cands)
+                t = texts[name]
+                pos = t.find(e[1])
+                a = len(t[:pos].encode("utf8"))
+                ver[name] = 2
+                srv.change(uri, [{"range": lspws.rng_of(t, a, a + len(e[1].encode("utf8"))), "text": e[2]}], version=2)
+                texts[name] = t[:pos] + e[2] + t[pos + len(e[1]):]
+                steps.append("edit %s: %r -> %r" % (name, e[1], e[2]))
         for _ in range(rng.randint(2, 9 if ctx.thorough else 6)):
             x = rng.random()
             name = rng.choice(list(FILES))
@@ -202,6 +235,7 @@ def real_history(ctx, idx):
             if name not in opened or x < 0.15:
                 srv.open(uri, texts[name])
                 opened.add(name)
+                ver[name] = 1             # editors restart the version of a document they open again
                 steps.append("open " + name)
             elif x < 0.25:
                 srv.close_doc(uri)
@@ -228,7 +262,8 @@ def real_history(ctx, idx):
                     texts[name] = t[:pos] + e[2] + t[pos + len(e[1]):]
                     steps.append("edit %s: %r -> %r" % (name, e[1], e[2]))
                 if changes:
-                    srv.change(uri, changes)
+                    ver[name] = ver.get(name, 1) + 1
+                    srv.change(uri, changes, version=ver[name])
             if rng.random() < 0.3:
                 srv.pos_request("textDocument/definition", "file://%s/main.oal" % root, 0, 0)
                 steps.append("request")
